@@ -68,3 +68,47 @@ package dastard
 //@   props C09
 //@   requires InvB(broker)
 //@   ensures (0 <= receiver && receiver < broker.nchannels ==> result == broker.sources[receiver]) && (!(0 <= receiver && receiver < broker.nchannels) ==> result == nil)
+
+//@ func (*TriggerCounter).countNewTriggers
+//@   trusted
+//@   modifies any(TriggerCounter), any(triggerCounterMessage)
+
+//@ func NewTriggerCounter
+//@   trusted
+
+//@ func NewTriggerBroker
+//@   props C09
+//@   requires nchan >= 0
+//@   ensures inv: InvB(result) && result.nchannels == nchan
+//@   ensures empty: result.nconnections == 0 && (forall s int, r int :: {dom(result.sources[r], s)} !Conn(result, s, r))
+//@   ensures isnew: fresh(result)
+//@   ghost exit: result.csum[i] := 0
+//@   loop 1
+//@     invariant 0 <= i && i <= nchan && broker != nil && fresh(broker) && allocated(broker) && broker.nchannels == nchan && len(broker.sources) == nchan && fresh(broker.sources)
+//@     invariant done: forall j int :: {broker.sources[j]} 0 <= j && j < i ==> broker.sources[j] != nil && fresh(broker.sources[j]) && allocated(broker.sources[j]) && len(broker.sources[j]) == 0
+//@     invariant distinct: forall j int, k int :: {broker.sources[j], broker.sources[k]} 0 <= j && j < k && k < i ==> broker.sources[j] != broker.sources[k]
+//@     modifies broker.sources[*]
+//@   loop 2
+//@     invariant 0 <= i && i <= nchan && broker != nil && fresh(broker) && allocated(broker) && broker.nchannels == nchan && len(broker.sources) == nchan && fresh(broker.sources)
+//@     invariant len(broker.latestPrimaries) == nchan && len(broker.triggerCounters) == nchan && broker.nconnections == 0 && fresh(broker.triggerCounters)
+//@     invariant done: forall j int :: {broker.sources[j]} 0 <= j && j < nchan ==> broker.sources[j] != nil && len(broker.sources[j]) == 0
+//@     invariant distinct: forall j int, k int :: {broker.sources[j], broker.sources[k]} 0 <= j && j < k && k < nchan ==> broker.sources[j] != broker.sources[k]
+//@     modifies broker.triggerCounters[*].*
+
+//@ func (*TriggerBroker).Distribute
+//@   props C09
+//@   requires InvB(broker)
+//@   requires keys: forall k int :: {dom(primaries, k)} dom(primaries, k) ==> 0 <= k && k < broker.nchannels
+//@   ensures inv: InvB(broker)
+//@   ensures noerr: result1 == nil && result0 != nil
+//@   ensures nosrc: forall rx int :: {dom(result0, rx)} dom(result0, rx) ==> 0 <= rx && rx < broker.nchannels && len(broker.sources[rx]) > 0
+//@   modifies broker.latestPrimaries[*], any(TriggerCounter), any(triggerCounterMessage)
+//@   loop 1
+//@     invariant InvB(broker)
+//@   loop 2
+//@     invariant InvB(broker) && 0 <= idx && idx <= broker.nchannels && secondaryMap != nil && fresh(secondaryMap)
+//@     invariant nosrc: forall rx int :: {dom(secondaryMap, rx)} dom(secondaryMap, rx) ==> 0 <= rx && rx < idx && len(broker.sources[rx]) > 0
+//@   loop 3
+//@     invariant InvB(broker) && 0 <= idx && idx < broker.nchannels && sources == broker.sources[idx] && secondaryMap != nil && fresh(secondaryMap)
+//@     invariant trigs == nil || fresh(trigs)
+//@     invariant nosrc: forall rx int :: {dom(secondaryMap, rx)} dom(secondaryMap, rx) ==> 0 <= rx && rx < idx && len(broker.sources[rx]) > 0
